@@ -313,7 +313,7 @@ def handleValid (j : Json) : Except String Json := do
   | .ok files =>
     let cs := filesOfType files contentTypes
     pure (Json.mkObj ((cs.map fun r => (String.ofList r.path, jM (fun cr => toJson (validT cr.2)) (rootElement o a files r))) ++
-      [("<package>", toJson (validPkg o a))]))
+      [("<package>", toJson (validPkg o a)), ("<comments>", toJson (commentsOK a))]))
 
 def handle (line : String) : Json :=
   match Json.parse line with
